@@ -397,6 +397,74 @@ theorem ticks_nest (cfg : Cfg) (s : State) : Nest s (ticks cfg s) := by
 
 /-! ## the simulation relation -/
 
+/-- the name of the manager's own table entry -/
+def mmName : List Nat := "message_manager".toList.map (·.toNat)
+
+/-- facts about the model's tables alone that the connect decision (C06) rests on, for the connections satisfying `P`:
+    table entries have distinct uids; the manager's own entry keeps id 0 and its name; a module that is not connected
+    holds no id; the dynamic-id cursor stays inside its range -/
+structure MInvOn (P : Nat → Prop) (cfg : Cfg) (s : State) : Prop where
+  distinct : (s.mods.map (·.uid)).Nodup
+  mgr : ∀ m0, s.find 0 = some m0 → m0.modId = 0 ∧ m0.name = mmName
+  unconn : ∀ u m, P u → s.find u = some m → m.connected = false → m.modId = 0
+  ndyn : maxDyn cfg = 0 ∨ s.nextDyn < maxDyn cfg
+
+theorem MInvOn.mono {P Q : Nat → Prop} {cfg : Cfg} {s : State} (h : MInvOn P cfg s) (hq : ∀ u, Q u → P u) : MInvOn Q cfg s :=
+  ⟨h.distinct, h.mgr, fun u m hu => h.unconn u m (hq u hu), h.ndyn⟩
+
+theorem core_more {a b : Module} (h : a.core = b.core) :
+    a.modId = b.modId ∧ a.name = b.name ∧ a.connected = b.connected := by
+  unfold Module.core at h; cases a; cases b; simp_all
+
+/-- nested activity keeps them -/
+theorem minv_nest {P : Nat → Prop} {cfg : Cfg} {s s' : State} (h : MInvOn P cfg s) (n : Nest s s') (ao' : AllOpen s') :
+    MInvOn P cfg s' := by
+  refine ⟨n.uids.nodup h.distinct, fun m0 hm0 => ?_, fun u m' hp hm' hc => ?_, by rw [n.ndyn]; exact h.ndyn⟩
+  · obtain ⟨m, hm, e⟩ := n.surv 0 m0 hm0 (ao' 0 m0 hm0)
+    obtain ⟨e1, e2, _⟩ := core_more e
+    rw [e1, e2]; exact h.mgr m hm
+  · obtain ⟨m, hm, e⟩ := n.surv u m' hm' (ao' u m' hm')
+    obtain ⟨e1, _, e3⟩ := core_more e
+    rw [e1]; exact h.unconn u m hp hm (by rw [← e3]; exact hc)
+
+/-- a step that keeps the table and the cursor -/
+theorem minv_same {P : Nat → Prop} {cfg : Cfg} {s s' : State} (h : MInvOn P cfg s) (hm : s'.mods = s.mods)
+    (hd : s'.nextDyn = s.nextDyn) : MInvOn P cfg s' := by
+  have hfind : ∀ u, s'.find u = s.find u := fun u => by unfold State.find; rw [hm]
+  exact ⟨by rw [hm]; exact h.distinct, fun m0 h0 => h.mgr m0 (by rw [← hfind]; exact h0),
+    fun u m hp hu => h.unconn u m hp (by rw [← hfind]; exact hu), by rw [hd]; exact h.ndyn⟩
+
+/-- a rewrite of fields of the table entry of `u ≠ 0`, described through `find` -/
+theorem minv_find {P : Nat → Prop} {cfg : Cfg} {s s' : State} {u : Nat} {fm : Module → Module} (h : MInvOn P cfg s)
+    (hu0 : u ≠ 0) (huids : s'.mods.map (·.uid) = s.mods.map (·.uid))
+    (hfind : ∀ v, s'.find v = (s.find v).map (fun m => if m.uid == u then fm m else m))
+    (hd : s'.nextDyn = s.nextDyn) :
+    MInvOn (fun v => P v ∧ v ≠ u) cfg s' := by
+  refine ⟨by rw [huids]; exact h.distinct, fun m0 hm0 => ?_, fun v m' hp hm' hc => ?_, by rw [hd]; exact h.ndyn⟩
+  · rw [hfind] at hm0
+    cases h0 : s.find 0 with
+    | none => simp [h0] at hm0
+    | some x =>
+      have hx : (x.uid == u) = false := by rw [find_uid h0]; simpa using fun e => hu0 e.symm
+      simp only [h0, Option.map_some, hx, Bool.false_eq_true, if_false, Option.some.injEq] at hm0
+      subst hm0; exact h.mgr x h0
+  · rw [hfind] at hm'
+    cases h0 : s.find v with
+    | none => simp [h0] at hm'
+    | some x =>
+      have hx : (x.uid == u) = false := by rw [find_uid h0]; simpa using hp.2
+      simp only [h0, Option.map_some, hx, Bool.false_eq_true, if_false, Option.some.injEq] at hm'
+      subst hm'; exact h.unconn v x hp.1 h0 hc
+
+/-- the requester's own entry satisfies the clause again (or is gone) -/
+theorem minv_close {P : Nat → Prop} {cfg : Cfg} {s : State} {u : Nat} (h : MInvOn (fun v => P v ∧ v ≠ u) cfg s)
+    (hu : ∀ m, s.find u = some m → m.connected = false → m.modId = 0) : MInvOn P cfg s :=
+  ⟨h.distinct, h.mgr, fun v m hp hm hc => by
+    by_cases hv : v = u
+    · subst hv; exact hu m hm hc
+    · exact h.unconn v m ⟨hp, hv⟩ hm hc, h.ndyn⟩
+
+
 open Spec in
 /-- one live entry of the abstract table against the module record the manager keeps for the same connection -/
 structure SimMod (cfg : Cfg) (am : AMod) (m : Module) : Prop where
@@ -433,6 +501,7 @@ structure Sim (cfg : Cfg) (a : Spec.A) (s : State) : Prop where
   logBound : ∀ u, u ∈ s.loggers → u ≤ s.nextUid
   idxIn : ∀ u m t, s.find u = some m → t ∈ m.subs → u ∈ idxGet s.idx t
   idxPos : ∀ t u, u ∈ idxGet s.idx t → u ≠ 0
+  minv : MInvOn (fun _ => True) cfg s
 
 theorem mem_closes (evs : List Ev) (u : Nat) : u ∈ Spec.closes evs ↔ Ev.close u ∈ evs := by
   unfold Spec.closes
@@ -497,7 +566,7 @@ theorem sim_quiet {cfg : Cfg} {a : Spec.A} {s s' : State} (hs : Sim cfg a s) (ao
   have live' : ∀ u, (Spec.applyDepartures a ext').live u = if (Spec.closes ext').contains u then none else a.live u :=
     Spec.applyDepartures_live a ext'
   refine ⟨by rw [Spec.applyDepartures_uids, hna]; exact hs.uids, by rw [hna, n.nuid]; exact hs.nacc,
-    by rw [hfl, n.fail]; exact hs.fail, by rw [hb, n.buf]; exact hs.buf, ?_, ?_, ?_, ?_, ?_, ?_, ?_, ?_, ?_, ?_⟩
+    by rw [hfl, n.fail]; exact hs.fail, by rw [hb, n.buf]; exact hs.buf, ?_, ?_, ?_, ?_, ?_, ?_, ?_, ?_, ?_, ?_, minv_nest hs.minv n ao'⟩
   · intro u hu
     rw [live']
     by_cases hc : (Spec.closes ext').contains u = true
@@ -569,16 +638,17 @@ structure SimOn (P : Nat → Prop) (cfg : Cfg) (a : Spec.A) (s : State) : Prop w
   logBound : ∀ u, u ∈ s.loggers → u ≤ s.nextUid
   idxIn : ∀ u m t, P u → s.find u = some m → t ∈ m.subs → u ∈ idxGet s.idx t
   idxPos : ∀ t u, u ∈ idxGet s.idx t → u ≠ 0
+  minv : MInvOn P cfg s
 
 theorem Sim.on {cfg : Cfg} {a : Spec.A} {s : State} (h : Sim cfg a s) (P : Nat → Prop) : SimOn P cfg a s :=
   ⟨h.uids, h.nacc, h.fail, h.buf, fun u _ => h.live u, fun u am m _ => h.mods u am m, fun u _ => h.w u,
    fun u m _ => h.logIn u m, fun u m _ => h.logOut u m, fun u m _ => h.logConn u m, h.logNodup, h.logBound,
-   fun u m t _ => h.idxIn u m t, h.idxPos⟩
+   fun u m t _ => h.idxIn u m t, h.idxPos, h.minv.mono (fun _ _ => trivial)⟩
 
 theorem SimOn.all {cfg : Cfg} {a : Spec.A} {s : State} (h : SimOn (fun _ => True) cfg a s) : Sim cfg a s :=
   ⟨h.uids, h.nacc, h.fail, h.buf, fun u => h.live u trivial, fun u am m => h.mods u am m trivial, fun u => h.w u trivial,
    fun u m => h.logIn u m trivial, fun u m => h.logOut u m trivial, fun u m => h.logConn u m trivial, h.logNodup, h.logBound,
-   fun u m t => h.idxIn u m t trivial, h.idxPos⟩
+   fun u m t => h.idxIn u m t trivial, h.idxPos, h.minv⟩
 
 /-- `sim_quiet` on a set of connections -/
 theorem simOn_quiet {P : Nat → Prop} {cfg : Cfg} {a : Spec.A} {s s' : State} (hs : SimOn P cfg a s) (ao : AllOpen s)
@@ -592,7 +662,7 @@ theorem simOn_quiet {P : Nat → Prop} {cfg : Cfg} {a : Spec.A} {s s' : State} (
   have live' : ∀ u, (Spec.applyDepartures a ext').live u = if (Spec.closes ext').contains u then none else a.live u :=
     Spec.applyDepartures_live a ext'
   refine ⟨by rw [Spec.applyDepartures_uids, hna]; exact hs.uids, by rw [hna, n.nuid]; exact hs.nacc,
-    by rw [hfl, n.fail]; exact hs.fail, by rw [hb, n.buf]; exact hs.buf, ?_, ?_, ?_, ?_, ?_, ?_, ?_, ?_, ?_, ?_⟩
+    by rw [hfl, n.fail]; exact hs.fail, by rw [hb, n.buf]; exact hs.buf, ?_, ?_, ?_, ?_, ?_, ?_, ?_, ?_, ?_, ?_, minv_nest hs.minv n ao'⟩
   · intro u hp hu
     rw [live']
     by_cases hc : (Spec.closes ext').contains u = true
